@@ -109,7 +109,10 @@ def run_job(env, spec):
             step = lambda f, g: H.solve(f, g, 4000)
             nfix += sysm.propagate_semantic(honest, [t.path.facts(linear_only=True)], step, window=job.cfg["n"] + 2)
         alts, names = soundness_goal(env, t, sysm)
-        enc = sysm.encode()
+        lemmas = []
+        if job.cfg["n"] >= 8:
+            lemmas = O.bit_lemmas(t.path, sorted({job.cfg["n"], job.cfg["n"] + 1, job.cfg["n"] - 1})) + sysm.uniqueness_lemmas(t.path)
+        enc = sysm.encode() + lemmas
         facts = t.path.facts() + enc
         goal = z3.Or(alts)
         # without the non-linear definitions of honest products first (a subset of the facts is sound for unsat and keeps
@@ -120,6 +123,17 @@ def run_job(env, spec):
                             label="C02 %s path %d second-witness (linear facts)" % (job.name, pi))
         if st != "unsat":
             st, m = H.solve(facts, goal, job.timeout, label="C02 %s path %d second-witness" % (job.name, pi))
+        if st == "unknown":
+            # fall back to step-by-step determinacy (route B) and ask again on what is left
+            step = lambda f, g: H.solve(f + lemmas, g, 8000)
+            sysm.propagate_semantic(honest, [t.path.facts(linear_only=True)], step, window=job.cfg["n"] + 2)
+            alts, names = soundness_goal(env, t, sysm)
+            goal = z3.Or(alts)
+            enc = sysm.encode() + lemmas
+            facts = t.path.facts() + enc
+            st, m = H.solve(t.path.facts(linear_only=True) + enc, goal, job.timeout, label="C02 %s path %d after route B" % (job.name, pi))
+            if st == "sat":
+                st, m = H.solve(facts, goal, job.timeout)
         job.obligation(st)
         if st == "unknown":
             job.inconclusive("path %d: solver unknown (%s)" % (pi, m))
